@@ -7,18 +7,14 @@
   `KeepsTop m`: the same, and the current context is unchanged as well (expressions, and everything
                 that runs in a context of its own).
 
-  "Bindings" = everything of a context except its macro-depth counter (`fview`).
+  "As it was" means identical: bindings, escaping mode, template chain and recursion counter.
 -/
 import Pongo.Model.Exec
 
 namespace Pongo
 
-/-- what is observable of a context: its identity, private and public bindings, escaping mode and
-    template chain — everything but the recursion counter -/
-def fview (fr : Frame) : Nat × Env × Env × Bool × List Nat × Nat :=
-  (fr.id, fr.priv, fr.pub, fr.autoescape, fr.chain, fr.called)
-
-def sview (fs : List Frame) : List (Nat × Env × Env × Bool × List Nat × Nat) := fs.map fview
+/-- the whole context stack (kept as a function so that statements read "the stack is unchanged") -/
+def sview (fs : List Frame) : List Frame := fs
 
 /-- the state after running, whatever the outcome -/
 def resState {α} : EStateM.Result XErr ES α → ES
@@ -45,9 +41,7 @@ theorem Same.trans {a b c : ES} (h1 : Same a b) (h2 : Same b c) : Same a c := by
   unfold Same at *; rw [h2, h1]
 theorem Same.below {a b : ES} (h : Same a b) : Below a b := by
   unfold Same sview at h
-  constructor
-  · have := congrArg List.length h; simpa using this
-  · unfold sview; rw [List.map_tail, List.map_tail, h]
+  exact ⟨by rw [h], by unfold sview; rw [h]⟩
 
 theorem ne_of_below {σ σ' : ES} (h : Below σ σ') (hn : σ.frames ≠ []) : σ'.frames ≠ [] := by
   intro he
@@ -191,17 +185,53 @@ theorem keepsTop_getFrame (id : Nat) : KeepsTop (getFrame id) := by
   | some f =>
     simp [EStateM.run, bind, EStateM.bind, get, getThe, MonadStateOf.get, EStateM.get, hf, pure, EStateM.pure, noPanic, resState, Same]
 
-/-- updating a context's recursion counter (the only use of `modifyFrame`) is invisible -/
-theorem keepsTop_modifyFrame (id : Nat) (f : Frame → Frame) (hf : ∀ fr, fview (f fr) = fview fr) :
-    KeepsTop (modifyFrame id f) := by
-  unfold modifyFrame
-  apply keepsTop_modify
-  intro s
-  simp only [sview, List.map_map]
-  apply List.map_congr_left
-  intro fr _
-  simp only [Function.comp]
-  split <;> simp [hf]
+/-- the recursion counter of context `fid`, one up / one down -/
+def depthUp (fid : Nat) : XM Unit := modifyFrame fid fun fr => { fr with macroDepth := fr.macroDepth + 1 }
+def depthDown (fid : Nat) : XM Unit := modifyFrame fid fun fr => { fr with macroDepth := fr.macroDepth - 1 }
+
+theorem down_up (fid : Nat) (fs : List Frame) :
+    (fs.map fun fr => if fr.id == fid then { fr with macroDepth := fr.macroDepth + 1 } else fr).map
+      (fun fr => if fr.id == fid then { fr with macroDepth := fr.macroDepth - 1 } else fr) = fs := by
+  induction fs with
+  | nil => rfl
+  | cons fr t ih =>
+    simp only [List.map_cons, ih]
+    congr 1
+    by_cases h : (fr.id == fid) = true
+    · simp [h]
+    · simp [h]
+
+/-- counting a call in and out again — around a body that leaves the stack alone, and whether the
+    body returns or fails — leaves every context exactly as it was, its recursion counter too -/
+theorem keepsTop_depthBracket {α} (fid : Nat) {m : XM α} (hm : KeepsTop m) :
+    KeepsTop (depthUp fid >>= fun _ =>
+      tryCatch (m >>= fun r => depthDown fid >>= fun _ => pure r) (fun e => depthDown fid >>= fun _ => throw e)) := by
+  intro σ hσ
+  simp only [depthUp, depthDown, modifyFrame, EStateM.run, bind, EStateM.bind, modify, modifyGet, MonadStateOf.modifyGet,
+    EStateM.modifyGet, tryCatch, tryCatchThe, MonadExceptOf.tryCatch, EStateM.tryCatch, EStateM.Backtrackable.save,
+    EStateM.Backtrackable.restore, EStateM.dummySave, EStateM.dummyRestore]
+  have h1 := hm { σ with frames := σ.frames.map fun fr => if fr.id == fid then { fr with macroDepth := fr.macroDepth + 1 } else fr }
+    (by intro he; exact hσ (by simpa using he))
+  simp only [EStateM.run] at h1
+  cases hr : m { σ with frames := σ.frames.map fun fr => if fr.id == fid then { fr with macroDepth := fr.macroDepth + 1 } else fr } with
+  | ok a σ' =>
+    rw [hr] at h1
+    simp only [resState, Same, sview] at h1
+    simp only [pure, EStateM.pure, noPanic, resState, Same, sview, true_and]
+    rw [h1.2]; exact down_up fid σ.frames
+  | error e σ' =>
+    rw [hr] at h1
+    simp only [noPanic, resState, Same, sview] at h1
+    simp only [throw, throwThe, MonadExceptOf.throw, EStateM.throw, noPanic, resState, Same, sview]
+    exact ⟨h1.1, by rw [h1.2]; exact down_up fid σ.frames⟩
+
+/-- the guard's refusal: counted in, counted out, error -/
+theorem keepsTop_depthRefuse {α} (fid : Nat) (msg : String) :
+    KeepsTop (depthUp fid >>= fun _ => depthDown fid >>= fun _ => (xerr msg : XM α)) := by
+  intro σ _
+  simp only [depthUp, depthDown, modifyFrame, EStateM.run, bind, EStateM.bind, modify, modifyGet, MonadStateOf.modifyGet,
+    EStateM.modifyGet, xerr, throw, throwThe, MonadExceptOf.throw, EStateM.throw, noPanic, resState, Same, sview]
+  exact ⟨by decide, down_up fid σ.frames⟩
 
 theorem keepsTop_liftStep {α} (r : Except String α) : KeepsTop (liftStep r) := by
   unfold liftStep
@@ -229,7 +259,7 @@ theorem keeps_modifyCur (f : Frame → Frame) : Keeps (modifyCur f) := by
   unfold modifyCur
   apply keeps_modify
   intro s
-  cases h : s.frames <;> simp [Below, h]
+  cases h : s.frames <;> simp [Below, sview, h]
 
 theorem keeps_buffered {m : XM Unit} (hm : Keeps m) : Keeps (buffered m) := by
   unfold buffered
